@@ -1,0 +1,8 @@
+//go:build verif
+
+package gb28181
+
+// VerifSetMaxUnpackRtpListSize sets the reorder queue size used by PsUnpackers created afterwards (as unpack_test.go does).
+func VerifSetMaxUnpackRtpListSize(n int) {
+	maxUnpackRtpListSize = n
+}
